@@ -112,3 +112,162 @@ Proof.
       destruct (Z.leb_spec mp2 y); [|discriminate].
       destruct (Z.ltb_spec y (mp2 + 0)); [|discriminate]. lia.
 Qed.
+
+(** * Pasting one block *)
+Definition key_eqb (a b : Z * Z) : bool := (fst a =? fst b) && (snd a =? snd b).
+
+Lemma key_eqb_spec a b : reflect (a = b) (key_eqb a b).
+Proof.
+  unfold key_eqb. destruct a as (a1, a2), b as (b1, b2). cbn [fst snd].
+  destruct (Z.eqb_spec a1 b1); destruct (Z.eqb_spec a2 b2); cbn [andb]; constructor; congruence.
+Qed.
+
+Section Assemble.
+  Context {E V W : Type}.
+  Variable cast : V -> W.
+  Variable esel : E -> E.
+  Variable t : vtiles.
+  Variable fill : W.
+  Variable w : (Z * Z) * (Z * Z).
+  Hypothesis Wt : rt_wf (RVar t).
+  Hypothesis Hwy : 0 <= fst (fst w) <= snd (fst w).
+  Hypothesis Hwx : 0 <= fst (snd w) <= snd (snd w).
+
+  Let T := RVar t.
+
+  (** a block fits its tile *)
+  Definition block_ok (kb : (Z * Z) * arr (E:=E) V) : Prop :=
+    in_grid T (fst kb) /\ a_sh (snd kb) = roi_shape2 (tile_region T (fst kb)).
+
+  (** value of the block stored for tile [k] at mosaic pixel (Y, X) *)
+  Definition block_at (k : Z * Z) (b : arr (E:=E) V) (e : E) (Y X : Z) : W :=
+    cast (a_at b e (Y - By T (fst k)) (X - Bx T (snd k))).
+
+  Lemma paste_block_spec xx k b :
+    a_sh xx = roi_shape2 w -> block_ok (k, b) ->
+    exists xx', paste_block cast esel t w xx (k, b) = Ok xx' /\ a_sh xx' = a_sh xx /\
+      forall e y x, 0 <= y < fst (roi_shape2 w) -> 0 <= x < snd (roi_shape2 w) ->
+        let P := (fst (fst w) + y, fst (snd w) + x) in
+        (in_roi (tile_region T k) P -> a_at xx' e y x = block_at k b (esel e) (fst P) (snd P)) /\
+        (~ in_roi (tile_region T k) P -> a_at xx' e y x = a_at xx e y x).
+  Proof.
+    intros Hsh (G & Hb). cbn [fst snd] in G, Hb.
+    unfold paste_block. cbn [fst snd].
+    change (vt_getitem t (int_idx k)) with (rt_getitem T (int_idx k)).
+    rewrite rt_index_grid by assumption. cbn [bind].
+    pose proof (rt_region_inside T k Wt G) as RI. cbv zeta in RI.
+    destruct w as ((wy0, wy1), (wx0, wx1)). cbn [fst snd] in *.
+    unfold tile_region in *. cbn [fst snd] in *.
+    set (ty0 := By T (fst k)) in *. set (ty1 := By T (fst k + 1)) in *.
+    set (tx0 := Bx T (snd k)) in *. set (tx1 := Bx T (snd k + 1)) in *.
+    destruct (intersect3_axis ty0 ty1 wy0 wy1 ltac:(lia) ltac:(lia)) as (sy & dy & cy & Ey & Ly & Iy & Oy).
+    destruct (intersect3_axis tx0 tx1 wx0 wx1 ltac:(lia) ltac:(lia)) as (sx & dx & cx & Ex & Lx & Ix & Ox).
+    unfold roi_intersect3. cbn [fst snd]. rewrite Ey, Ex. cbn [bind].
+    unfold np_copyto_view. rewrite Hsh, Hb. unfold roi_shape2. cbn [fst snd].
+    cbv zeta in Ly, Lx, Iy, Ix, Oy, Ox.
+    rewrite <- Ly, <- Lx, !Z.eqb_refl. cbn [andb].
+    eexists; split; [reflexivity|]. cbn [a_sh a_at]. split; [reflexivity|].
+    intros e y x Hy Hx. cbv zeta. unfold in_roi, block_at. cbn [fst snd].
+    specialize (Iy y). specialize (Ix x). specialize (Oy y). specialize (Ox x).
+    destruct (inside (eff (wy1 - wy0) dy) y) eqn:Iny; destruct (inside (eff (wx1 - wx0) dx) x) eqn:Inx;
+      cbn [andb]; split; intros HP.
+    - f_equal. rewrite Oy, Ox by reflexivity. fold ty0 tx0. f_equal; lia.
+    - exfalso. apply HP. destruct Iy as (Iy & _). destruct Ix as (Ix & _).
+      specialize (Iy eq_refl). specialize (Ix eq_refl). lia.
+    - exfalso. destruct Ix as (_ & Ix). assert (false = true) by (apply Ix; lia). discriminate.
+    - reflexivity.
+    - exfalso. destruct Iy as (_ & Iy). assert (false = true) by (apply Iy; lia). discriminate.
+    - reflexivity.
+    - exfalso. destruct Iy as (_ & Iy). assert (false = true) by (apply Iy; lia). discriminate.
+    - reflexivity.
+  Qed.
+
+  (** * Pasting all blocks *)
+  Fixpoint lookup (k : Z * Z) (bl : list ((Z * Z) * arr (E:=E) V)) : option (arr (E:=E) V) :=
+    match bl with
+    | [] => None
+    | kb :: r => if key_eqb (fst kb) k then Some (snd kb) else lookup k r
+    end.
+
+  Lemma lookup_none k bl : ~ In k (map fst bl) -> lookup k bl = None.
+  Proof.
+    induction bl as [|kb r IH]; cbn [lookup map]; intros H; [reflexivity|].
+    destruct (key_eqb_spec (fst kb) k) as [Ek | N]; [exfalso; apply H; left; exact Ek|].
+    apply IH. intros X; apply H; right; exact X.
+  Qed.
+
+  (** the mosaic: the block of the tile holding the pixel if it is present, else fill *)
+  Definition mosaic (bl : list ((Z * Z) * arr (E:=E) V)) (e : E) (Y X : Z) : W :=
+    match vt_locate t (Y, X) with
+    | Ok rc => match lookup rc bl with
+               | Some b => block_at rc b e Y X
+               | None => fill
+               end
+    | Err _ => fill
+    end.
+
+  Lemma tile_of_cases Y X :
+    (exists rc, vt_locate t (Y, X) = Ok rc /\ in_grid T rc /\ in_roi (tile_region T rc) (Y, X) /\
+                forall rc', in_grid T rc' -> in_roi (tile_region T rc') (Y, X) -> rc' = rc) \/
+    (vt_locate t (Y, X) = Err EIndex /\ forall rc', in_grid T rc' -> ~ in_roi (tile_region T rc') (Y, X)).
+  Proof.
+    change (vt_locate t (Y, X)) with (rt_locate T (Y, X)).
+    destruct (Z_le_gt_dec 0 Y); [destruct (Z_lt_le_dec Y (ax_N (rt_y T)));
+      [destruct (Z_le_gt_dec 0 X); [destruct (Z_lt_le_dec X (ax_N (rt_x T)))|]|]|].
+    1: { left. apply rt_partition; [assumption | lia | lia]. }
+    all: right; split; [apply rt_locate_outside; [assumption | lia]|];
+      intros rc' G' (P1 & P2); pose proof (rt_region_inside T rc' Wt G') as RI; cbv zeta in RI;
+      cbn [fst snd] in *; lia.
+  Qed.
+
+  Lemma paste_all_spec : forall bl xx,
+    a_sh xx = roi_shape2 w -> NoDup (map fst bl) -> Forall block_ok bl ->
+    exists out, paste_all cast esel t w xx bl = Ok out /\ a_sh out = a_sh xx /\
+      forall e y x, 0 <= y < fst (roi_shape2 w) -> 0 <= x < snd (roi_shape2 w) ->
+        let Y := fst (fst w) + y in
+        let X := fst (snd w) + x in
+        a_at out e y x =
+          match vt_locate t (Y, X) with
+          | Ok rc => match lookup rc bl with
+                     | Some b => block_at rc b (esel e) Y X
+                     | None => a_at xx e y x
+                     end
+          | Err _ => a_at xx e y x
+          end.
+  Proof.
+    induction bl as [|(k, b) r IH]; intros xx Hsh ND OK.
+    - exists xx. split; [reflexivity|]. split; [reflexivity|].
+      intros e y x _ _. cbv zeta. cbn [lookup]. destruct (vt_locate t _); reflexivity.
+    - inversion ND as [|? ? Hnotin ND']; subst. inversion OK as [|? ? OKk OK']; subst.
+      destruct (paste_block_spec xx k b Hsh OKk) as (xx' & Ep & Sh' & Val).
+      cbn [paste_all]. rewrite Ep. cbn [bind].
+      destruct (IH xx' ltac:(congruence) ND' OK') as (out & Eo & Sho & Valo).
+      exists out. split; [exact Eo|]. split; [congruence|].
+      intros e y x Hy Hx. cbv zeta. rewrite (Valo e y x Hy Hx). cbv zeta.
+      destruct (Val e y x Hy Hx) as (Vin & Vout). cbn [fst snd] in Vin, Vout.
+      set (Y := fst (fst w) + y) in *. set (X := fst (snd w) + x) in *.
+      destruct (tile_of_cases Y X) as [(rc & El & G & Pin & Uniq) | (El & Nin)]; rewrite El.
+      + cbn [lookup fst snd]. destruct (key_eqb_spec k rc) as [-> | Nk].
+        * rewrite lookup_none by exact Hnotin. apply Vin. exact Pin.
+        * destruct (lookup rc r); [reflexivity|]. apply Vout.
+          intros Pk. apply Nk. apply Uniq; [apply OKk | exact Pk].
+      + apply Vout. apply Nin. apply OKk.
+  Qed.
+
+  Theorem extract_spec bl :
+    NoDup (map fst bl) -> Forall block_ok bl ->
+    exists out, extract_yx cast esel t bl fill w = Ok out /\ a_sh out = roi_shape2 w /\
+      forall e y x, 0 <= y < fst (roi_shape2 w) -> 0 <= x < snd (roi_shape2 w) ->
+        a_at out e y x = mosaic bl (esel e) (fst (fst w) + y) (fst (snd w) + x).
+  Proof.
+    intros ND OK. unfold extract_yx, np_full.
+    assert (Hs : 0 <= fst (roi_shape2 w) /\ 0 <= snd (roi_shape2 w)) by (unfold roi_shape2; cbn [fst snd]; lia).
+    destruct (Z.ltb_spec (fst (roi_shape2 w)) 0); [lia|]. destruct (Z.ltb_spec (snd (roi_shape2 w)) 0); [lia|].
+    cbn [orb bind].
+    destruct (paste_all_spec bl {| a_sh := roi_shape2 w; a_at := fun _ _ _ => fill |} eq_refl ND OK)
+      as (out & Eo & Sho & Valo).
+    exists out. split; [exact Eo|]. split; [exact Sho|].
+    intros e y x Hy Hx. rewrite (Valo e y x Hy Hx). cbv zeta. unfold mosaic. cbn [a_at].
+    destruct (vt_locate t _); [|reflexivity]. destruct (lookup _ bl); reflexivity.
+  Qed.
+End Assemble.
